@@ -190,7 +190,8 @@ func (m *c06Machine) envFrame() uintptr {
 }
 
 type c06Walk struct {
-	up     [3]int
+	up     [3][6]int // per upper level, as far as the walk gets: P,RW,US,CoW,NX of the entry and the id of the table it points to
+	upOK   bool      // all three upper levels present
 	leaf   uintptr // last-level entry if reached
 	reach  bool    // all upper levels present
 	effRW  bool
@@ -211,10 +212,13 @@ func (m *c06Machine) walkVA(root, va uintptr) (w c06Walk) {
 			w.effRW = w.effRW && e&2 != 0
 			return
 		}
+		b := c06Bits(e)
+		w.up[lvl] = [6]int{b[0], b[1], b[2], b[3], b[4], 0}
 		if e&1 == 0 {
-			return
+			return // the entry that stops the walk is reported with its other bits; nothing is seen below it
 		}
-		w.up[lvl] = 1
+		w.up[lvl][5] = m.fid((e & c06FrameMask) >> 12)
+		w.upOK = lvl == 2
 		w.effRW = w.effRW && e&2 != 0
 		table = e & c06FrameMask
 	}
@@ -356,7 +360,7 @@ func (m *c06Machine) state() c06Ev {
 		r := m.pageRec(c06UVA[i])
 		pg = append(pg, r)
 		w := m.walkVA(m.active, c06UVA[i])
-		if w.mapped && w.up == [3]int{1, 1, 1} {
+		if w.mapped && w.upOK {
 			add((w.leaf & c06FrameMask) >> 12)
 		}
 	}
@@ -669,6 +673,22 @@ func (d *c06Driver) pokeUp(pg int, lvl uint, present int) {
 	d.env("pokeup")
 }
 
+// environment: give an upper-level entry on the page's path exactly these five flag bits (frame and other
+// bits stay).  Works on entries whose next table is missing too; the present bit is only set on an entry that
+// points into physical memory.
+func (d *c06Driver) pokeUpFlags(pg int, lvl uint, bits int) {
+	p := d.m.entryPtr(c06UVA[pg], lvl)
+	if p == nil {
+		return
+	}
+	if bits&1 != 0 && !d.m.inPool((*p&c06FrameMask)>>12) {
+		bits &^= 1
+	}
+	e := *p &^ (uintptr(FlagPresent|FlagRW|FlagUserAccessible|FlagCopyOnWrite) | 1<<63)
+	*p = e | uintptr(c06Flags(bits))
+	d.env("pokeupf")
+}
+
 // environment: the resumed code writes to a page it may write to
 func (d *c06Driver) store(pg int) {
 	w := d.m.walkVA(d.m.active, c06UVA[pg])
@@ -692,7 +712,7 @@ func (d *c06Driver) frameOf(pg int) (mm.Frame, bool) {
 // ---------------------------------------------------------------- scripts (shared by legs G and T and by replay)
 //
 // An op is a JSON array: ["fault",pg,off,code,afail,tfail] ["faultat",kind,code] ["mapz",pg,bits,via] ["tmpz"]
-// ["regionz",k,n,bits,identity] ["share",q,p,bits] ["mapnew",pg,bits] ["poke",pg,bits,extra] ["pokeup",pg,lvl,present]
+// ["regionz",k,n,bits,identity] ["share",q,p,bits] ["mapnew",pg,bits] ["poke",pg,bits,extra] ["pokeup",pg,lvl,present] ["pokeupf",pg,lvl,bits]
 // ["store",pg] ["unmap",pg] ["gpf"] ["tmp"]
 
 func c06Int(v interface{}) int {
@@ -711,6 +731,8 @@ func c06Int(v interface{}) int {
 var c06OtherAddrs = []uintptr{
 	0, 0x1000, 0x00007b0000000000, c06UBase + 0x5000, c06UBase + 0x201000, 0xffff800000100000,
 	tempMappingAddr, 0xfffffffffffff000, 0xffffff7fbfdfe000, 0x0000800000000000, 0xffff7fffffffffff, c06UBase + 0x8000001000,
+	// never-created tables below entries that exist on the universe's paths (missing level 1 / 2 / 3 entry)
+	c06UBase + 0x80000000, c06UBase + 0x400000, c06UBase + 0x8040000000, c06UBase + 0x40200000, c06UBase + 0x8000200000,
 }
 
 // run executes one case: boot, standard set-up (pages 1..3 lazily allocated from the zero frame exactly as
@@ -779,6 +801,8 @@ func (d *c06Driver) run(script [][]interface{}) {
 			d.poke(a(1), a(2), uintptr(a(3))&0xdf8)
 		case "pokeup":
 			d.pokeUp(a(1), uint(a(2))%3, a(3))
+		case "pokeupf":
+			d.pokeUpFlags(a(1), uint(a(2))%3, a(3))
 		case "store":
 			d.store(a(1))
 		case "unmap":
@@ -899,8 +923,15 @@ func c06RandomScript(rng *rand.Rand) [][]interface{} {
 			op("mapnew", pg, randBits()|1)
 		case r < 86:
 			op("poke", pg, randBits(), rng.Intn(4096))
-		case r < 91:
+		case r < 89:
 			op("pokeup", pg, rng.Intn(3), rng.Intn(2))
+		case r < 93:
+			// upper-level flags: mostly "present, read-only, bit 9" and friends, sometimes anything
+			ub := []int{1 | 8, 1 | 8 | 16, 1, 1 | 2 | 8, 8, 1 | 4 | 8}[rng.Intn(6)]
+			if rng.Intn(3) == 0 {
+				ub = rng.Intn(32)
+			}
+			op("pokeupf", pg, rng.Intn(3), ub)
 		case r < 97:
 			op("store", pg)
 		case r < 99:
